@@ -68,7 +68,9 @@ def run(ctx):
     ctx.cov["samples"] = [dict(meta=m, case=c[:400]) for m, c in list(zip(meta, cases))[26:29]]
     ctx.assumptions = ["Python float() is correctly rounded (bit-exact comparison of table reads)",
                        "float sums at Q=0 within 2^-40 of the sum of magnitudes",
-                       "Q-grid form factors: relative 1e-11 of the sum of magnitudes against math.exp"]
+                       "Q-grid form factors: relative 1e-11 of the sum of magnitudes against math.exp",
+                       "Coq-Interval (FloatIntervalFull over StdZRadix2, 50 bits) and its *_correct lemmas for the "
+                       "enclosures of exp, pi, +, *, /; acceptance within 2^-30 of the sum of magnitudes"]
     fails = []
     if proved:
         n_ok, fails, logs, extra = vlib.run_shards("C20", PRE, CT, cases, "check_all",
